@@ -6,6 +6,7 @@ small indices the harness assigns to them.
   image <ref> <ld>:<toc> ...            -> ok          registry truth (manifest order)
   reset                                 -> ok          fresh LayerManager
   lookup <ref> <toc> <mf> <bits>        -> ok <id> | err          getLayer
+  clookup <ref> <toc> <mf> <bits>       -> done                   getLayer whose client cancelled its context
   info <ref> <toc> <mf>                 -> ok - | ok <idx> | err  getLayerInfo
   use <ref> <toc>                       -> <count>
   release <ref> <toc>                   -> ok <count> | err
@@ -88,6 +89,14 @@ def step (d : DSt) : List String → DSt × String
         | (s, .layer l) => ({ d with st := s }, s!"ok {l.id}")
         | (s, .err) => ({ d with st := s }, "err")
         | (s, _) => ({ d with st := s }, "model-error")
+      | none => (d, "bad-op")
+    | _, _, _, _ => (d, "bad-op")
+  | ["clookup", r, t, mf, bits] =>
+    -- a lookup abandoned by its client: what it returns is not compared, the state it leaves is
+    match parseNat? r, parseNat? t, parseBit? mf, parseBits? bits with
+    | some r, some t, some mf, some bits =>
+      match mkOracle? d r mf bits with
+      | some o => ({ d with st := (lookup (truthOf d) o d.st r t).1 }, "done")
       | none => (d, "bad-op")
     | _, _, _, _ => (d, "bad-op")
   | ["nlookup", r, t, kind, mf, bits] =>
